@@ -20,13 +20,15 @@ PROP = dict(
     spec=True,
     rule="cases = a forward.Handler configured with 0..40 endpoints (keys from a pool with case/whitespace/NUL/prefix variants, empty key, "
          "duplicates, random bytes, 255..65537-byte keys) whose targets are 6 real loopback listeners and 2 dead addresses, connection limit "
-         "in {unlimited,-1,1,2,3,1000}, started or not; ops: HandleStreamOpen with configured keys and near-misses, HandleStreamClose, Start, "
+         "in {unlimited,-1,1,2,3,1000}, started or not; ops: HandleStreamOpen with configured keys and near-misses, HandleStreamOpen RE-USING a live (or closed) stream id with the same / another "
+         "configured / unknown / near-miss key, a data token encrypted under the session of the last ACKed open sent through "
+         "HandleStreamData to see WHICH listener reads it, HandleStreamClose, Start, "
          "and STREAM_OPEN frames through Agent.handleStreamOpen (exact and near-miss `forward:` prefixes, other address types, path "
          "none/self/other/two hops), and the INGRESS side: a second real agent (agent.New, not started) with a learned route runs "
          "Agent.DialForward(key) and the STREAM_OPEN it emits is handed byte for byte to the exit agent (keys incl. 246..255 bytes, around the "
          "one-byte address length); the listener that accepted the connection (matched by source port to the ACK) is the observed dial "
          "target; any unattributed accepted connection is reported as stray; non-trivial = open/agent ops",
-    nontrivial=lambda op, out: op.startswith(("open", "agent", "ingress")),
+    nontrivial=lambda op, out: op.startswith(("open", "agent", "ingress", "reopen", "data")),
     trusted_base=[
         "MM/Model/C20.lean models the decision part of HandleStreamOpen (running, limit, map lookup) and the address dispatch of "
         "Agent.handleStreamOpen; the dial itself (net.Dialer) is observed, not modelled",
